@@ -75,7 +75,7 @@ def check_c20(tier):
     # (b) recorded sessions under every prior, unregistered and registered
     tcs, _ = checks_types.gen_type_cases()
     limit = 1500 if tier == "quick" else 6000
-    events = session.run_sessions(tcs, limit, procs=8)
+    events = session.run_sessions(tcs, limit, procs=8, covering=(tier != "quick"))     # (the covering pairings are C16's subject)
     verdicts, summary, st = session.validate(events)
     recs = _records(events, verdicts, lambda v: v != "operand-modified")
     # (c) threads
